@@ -152,14 +152,22 @@ theorem window_shapes_agree (full : View) (w : Win) (v : View) (hwf : full.WF)
 
 /-! ## 3. The global window restores the original view -/
 
+/-- the dictionary literal of `Data.set_global_window` (regenerated from the source by
+`translate/gen_C13.py`) has coinciding bounds on every axis — whatever the six numbers are -/
+theorem global_window_degenerate :
+    globalWin.tmin = globalWin.tmax ∧ globalWin.latmin = globalWin.latmax
+      ∧ globalWin.lonmin = globalWin.lonmax := by
+  simp [globalWin, StructC13.gTimeMin, StructC13.gTimeMax, StructC13.gLatMin, StructC13.gLatMax,
+    StructC13.gLonMin, StructC13.gLonMax]
+
 /-- `set_global_window` exposes the full data set again (and cannot raise on
 non-empty data) -/
 theorem global_window_is_full (full : View) (hwf : full.WF) (h1 : full.time ≠ [])
     (h2 : full.lat ≠ []) : applyWindow full globalWin = some full := by
   have et : timeMask globalWin full.time = List.replicate full.time.length true := by
-    simp [timeMask, globalWin]
+    simp [timeMask, global_window_degenerate.1]
   have es : spaceMask globalWin full.lat full.lon = List.replicate full.lat.length true := by
-    simp [spaceMask, globalWin]
+    simp [spaceMask, global_window_degenerate.2.1]
   unfold applyWindow
   simp only [et, es, select_replicate_true]
   have e1 : select (List.replicate full.lat.length true) full.lon = full.lon := by
@@ -412,32 +420,134 @@ structure Obj.Inv (o : Obj) : Prop where
   /-- the current view is the selection of the last accepted window (ghost field `win`) -/
   isWin : applyWindow o.full o.win = some o.cur
 
-/-- a freshly constructed object satisfies the invariant -/
-theorem init_inv (full : View) (c : Nat) (a : Bool) (w : Option Win) (o : Obj)
-    (hwf : full.WF) (h : Obj.init full c a w = some o) : o.Inv ∧ o.full = full := by
-  unfold Obj.init at h
-  split at h
-  · exact absurd h (by simp)
-  · rename_i v hv
-    have := Option.some.inj h
-    subst this
-    obtain ⟨ht, hla, _, _, hT, hN⟩ := applyWindow_some full _ v hv
-    refine ⟨⟨hwf, ?_, ?_, window_shapes_agree full _ v hwf hv, by simp, by simp, hv⟩, rfl⟩
-    · intro hf; apply hT; rw [ht, hf, select_nil_right]
-    · intro hf; apply hN; rw [hla, hf, select_nil_right]
+/-! ### the cache counter: generated statements and the laws they obey -/
 
-/-- a rejected window (`ValueError`) leaves the object exactly as it was -/
-theorem rejected_window_keeps_state (o : Obj) (w : Win) (h : (o.setWindow w).1 = true) :
-    (o.setWindow w).2 = o := by
-  unfold Obj.setWindow at h ⊢
-  split
-  · rfl
-  · rename_i v hv; simp [hv] at h
+/-- installing a window, with given counter values for the rejected / accepted outcome:
+the common shape of `Data.set_window`, `ClimateData.set_window` and
+`ClimateData.set_global_window` (lemmas `dataSetWindow_eq`, `setWindow_eq`, `setGlobal_eq`) -/
+def Obj.install (o : Obj) (w : Win) (vRej vAcc : Nat) : Bool × Obj :=
+  match applyWindow o.full w with
+  | none => (true, { o with ver := vRej })
+  | some v => (false, { o with cur := v, win := w, ver := vAcc })
 
-theorem setWindow_inv (o : Obj) (w : Win) (hi : o.Inv) : (o.setWindow w).2.Inv := by
-  unfold Obj.setWindow
+/-- counter after a *rejected* `set_global_window` (the exception leaves through the
+statements executed so far) -/
+def globalRej (v : Nat) : Nat :=
+  if StructC13.globalViaSelf then StructC13.setWindowPre (StructC13.setGlobalPre v)
+  else StructC13.setGlobalPre v
+
+/-- counter after an *accepted* `set_global_window` -/
+def globalAcc (v : Nat) : Nat :=
+  StructC13.setGlobalPost
+    (if StructC13.globalViaSelf
+     then StructC13.setWindowPost (StructC13.setWindowPre (StructC13.setGlobalPre v))
+     else StructC13.setGlobalPre v)
+
+theorem dataSetWindow_eq (o : Obj) (w : Win) : o.dataSetWindow w = o.install w o.ver o.ver := by
+  unfold Obj.dataSetWindow Obj.install
+  cases applyWindow o.full w <;> rfl
+
+theorem setWindow_eq (o : Obj) (w : Win) :
+    o.setWindow w = o.install w (StructC13.setWindowPre o.ver)
+      (StructC13.setWindowPost (StructC13.setWindowPre o.ver)) := by
+  unfold Obj.setWindow Obj.dataSetWindow Obj.install
+  cases applyWindow o.full w <;> rfl
+
+theorem dataSetGlobal_eq (o : Obj) :
+    o.dataSetGlobal = o.install globalWin
+      (if StructC13.globalViaSelf then StructC13.setWindowPre o.ver else o.ver)
+      (if StructC13.globalViaSelf then StructC13.setWindowPost (StructC13.setWindowPre o.ver)
+       else o.ver) := by
+  unfold Obj.dataSetGlobal
+  by_cases hv : StructC13.globalViaSelf = true
+  · rw [if_pos hv, if_pos hv, if_pos hv, setWindow_eq]
+  · rw [if_neg hv, if_neg hv, if_neg hv, dataSetWindow_eq]
+
+theorem setGlobal_eq (o : Obj) :
+    o.setGlobal = o.install globalWin (globalRej o.ver) (globalAcc o.ver) := by
+  unfold Obj.setGlobal globalRej globalAcc
+  rw [dataSetGlobal_eq]
+  unfold Obj.install
+  cases applyWindow o.full globalWin <;> rfl
+
+/-- the state of the object when `Data.__init__` is about to install the first window -/
+def blank (full : View) (c : Nat) (a : Bool) : Obj :=
+  ⟨full, ⟨[], [], [], []⟩, c, a, StructC13.initCounter, [], [], globalWin⟩
+
+/-- every constructor path installs the requested (or the global) window on the blank object -/
+theorem init_eq_install (full : View) (c : Nat) (a : Bool) (w : Option Win) :
+    ∃ vr va, Obj.init full c a w
+      = if ((blank full c a).install (w.getD globalWin) vr va).1 then none
+        else some ((blank full c a).install (w.getD globalWin) vr va).2 := by
+  unfold Obj.init
+  cases w with
+  | none =>
+    by_cases hs : StructC13.ctorGlobalStatic = true
+    · simp only [hs, if_true, dataSetGlobal_eq]; exact ⟨_, _, rfl⟩
+    · simp only [hs, Bool.false_eq_true, if_false, setGlobal_eq]; exact ⟨_, _, rfl⟩
+  | some w =>
+    by_cases hs : StructC13.ctorWindowStatic = true
+    · simp only [hs, if_true, dataSetWindow_eq]; exact ⟨_, _, rfl⟩
+    · simp only [hs, Bool.false_eq_true, if_false, setWindow_eq]; exact ⟨_, _, rfl⟩
+
+/-- what the memoisation needs from the counter statements of the source -/
+structure CounterLaws : Prop where
+  /-- a rejected `set_window` never decreases the counter -/
+  w_rej : ∀ v, v ≤ StructC13.setWindowPre v
+  /-- an accepted `set_window` strictly increases it -/
+  w_acc : ∀ v, v < StructC13.setWindowPost (StructC13.setWindowPre v)
+  g_rej : ∀ v, v ≤ globalRej v
+  /-- an accepted `set_global_window` strictly increases it -/
+  g_acc : ∀ v, v < globalAcc v
+  /-- the counter is a component of the memoisation key -/
+  key : StructC13.cacheKeyHasCounter = true
+
+/-- **the counter statements of the current source obey the laws** (`+= 1` after the base
+call in both setters; also true for `+= 2`, for a bump in front of the call, or without
+the second, redundant bump of `set_global_window` — false for `= 0`) -/
+theorem counter_laws : CounterLaws := by
+  refine ⟨?_, ?_, ?_, ?_, rfl⟩ <;> intro v <;>
+    (try simp [globalRej, globalAcc, StructC13.setWindowPre, StructC13.setWindowPost,
+      StructC13.setGlobalPre, StructC13.setGlobalPost, StructC13.globalViaSelf]) <;>
+    (try omega)
+
+theorem install_fields (o : Obj) (w : Win) (vr va : Nat) :
+    (o.install w vr va).2.full = o.full ∧ (o.install w vr va).2.cycle = o.cycle
+      ∧ (o.install w vr va).2.anom = o.anom
+      ∧ (o.install w vr va).2.pmCache = o.pmCache ∧ (o.install w vr va).2.anCache = o.anCache := by
+  unfold Obj.install
+  split <;> simp
+
+theorem install_rejected (o : Obj) (w : Win) (vr va : Nat) (h : (o.install w vr va).1 = true) :
+    applyWindow o.full w = none ∧ (o.install w vr va).2 = { o with ver := vr } := by
+  unfold Obj.install at h ⊢
+  revert h
+  cases applyWindow o.full w with
+  | none => intro _; exact ⟨rfl, rfl⟩
+  | some v => intro h; simp at h
+
+theorem install_accepted (o : Obj) (w : Win) (vr va : Nat) (h : (o.install w vr va).1 = false) :
+    (o.install w vr va).2.win = w ∧ applyWindow o.full w = some (o.install w vr va).2.cur
+      ∧ (o.install w vr va).2.ver = va := by
+  unfold Obj.install at h ⊢
+  revert h
+  cases applyWindow o.full w with
+  | none => intro h; simp at h
+  | some v => intro _; exact ⟨rfl, rfl, rfl⟩
+
+theorem install_inv (o : Obj) (w : Win) (vr va : Nat) (hi : o.Inv) (h1 : o.ver ≤ vr)
+    (h2 : o.ver < va) : (o.install w vr va).2.Inv := by
+  unfold Obj.install
   split
-  · exact hi
+  · refine ⟨hi.fullWF, hi.fullT, hi.fullN, hi.curWF, ?_, ?_, hi.isWin⟩
+    · intro e he
+      have := hi.pm e he
+      refine ⟨by simp only; omega, fun hk => this.2 ?_⟩
+      simp only at hk; omega
+    · intro e he
+      have := hi.an e he
+      refine ⟨by simp only; omega, fun hk => this.2 ?_⟩
+      simp only at hk; omega
   · rename_i v hv
     refine ⟨hi.fullWF, hi.fullT, hi.fullN, window_shapes_agree _ _ _ hi.fullWF hv, ?_, ?_, hv⟩
     · intro e he
@@ -447,29 +557,51 @@ theorem setWindow_inv (o : Obj) (w : Win) (hi : o.Inv) : (o.setWindow w).2.Inv :
       have := (hi.an e he).1
       exact ⟨by simp only; omega, by simp only; omega⟩
 
+/-- a freshly constructed object satisfies the invariant -/
+theorem init_inv (full : View) (c : Nat) (a : Bool) (w : Option Win) (o : Obj)
+    (hwf : full.WF) (h : Obj.init full c a w = some o) : o.Inv ∧ o.full = full := by
+  obtain ⟨vr, va, he⟩ := init_eq_install full c a w
+  rw [he] at h
+  split at h
+  · exact absurd h (by simp)
+  · rename_i hacc
+    have ho := Option.some.inj h
+    obtain ⟨hw, hv, _⟩ := install_accepted _ _ vr va (Bool.eq_false_iff.mpr hacc)
+    have hfl := install_fields (blank full c a) (w.getD globalWin) vr va
+    rw [ho] at hw hv hfl
+    have hf : o.full = full := hfl.1
+    have hv' : applyWindow full o.win = some o.cur := by rw [hw]; exact hv
+    obtain ⟨ht, hla, _, _, hT, hN⟩ := applyWindow_some full _ _ hv'
+    refine ⟨⟨by rw [hf]; exact hwf, ?_, ?_, window_shapes_agree full _ _ hwf hv',
+      by rw [hfl.2.2.2.1]; simp [blank], by rw [hfl.2.2.2.2]; simp [blank],
+      by rw [hf]; exact hv'⟩, hf⟩
+    · rw [hf]; intro hx; apply hT; rw [ht, hx, select_nil_right]
+    · rw [hf]; intro hx; apply hN; rw [hla, hx, select_nil_right]
+
+/-- a rejected window (`ValueError`) leaves the object as it was: same view, same recorded
+window, same memoised entries; the counter does not decrease -/
+theorem rejected_window_keeps_state (o : Obj) (w : Win) (h : (o.setWindow w).1 = true) :
+    (o.setWindow w).2 = { o with ver := (o.setWindow w).2.ver } ∧ o.ver ≤ (o.setWindow w).2.ver := by
+  rw [setWindow_eq] at h ⊢
+  obtain ⟨_, h2⟩ := install_rejected o w _ _ h
+  rw [h2]
+  exact ⟨rfl, counter_laws.w_rej o.ver⟩
+
+theorem setWindow_inv (o : Obj) (w : Win) (hi : o.Inv) : (o.setWindow w).2.Inv := by
+  rw [setWindow_eq]
+  exact install_inv o w _ _ hi (counter_laws.w_rej _) (counter_laws.w_acc _)
+
 theorem setWindow_fields (o : Obj) (w : Win) :
     (o.setWindow w).2.full = o.full ∧ (o.setWindow w).2.cycle = o.cycle
       ∧ (o.setWindow w).2.anom = o.anom := by
-  unfold Obj.setWindow
-  split <;> simp
+  rw [setWindow_eq]
+  have := install_fields o w (StructC13.setWindowPre o.ver)
+    (StructC13.setWindowPost (StructC13.setWindowPre o.ver))
+  exact ⟨this.1, this.2.1, this.2.2.1⟩
 
 theorem setGlobal_inv (o : Obj) (hi : o.Inv) : o.setGlobal.2.Inv := by
-  have h1 := setWindow_inv o globalWin hi
-  unfold Obj.setGlobal
-  split
-  · rename_i o' heq
-    have : (o.setWindow globalWin).2 = o' := by rw [heq]
-    rw [← this]; exact h1
-  · rename_i o' heq
-    have e : (o.setWindow globalWin).2 = o' := by rw [heq]
-    rw [e] at h1
-    refine ⟨h1.fullWF, h1.fullT, h1.fullN, h1.curWF, ?_, ?_, h1.isWin⟩
-    · intro x hx
-      have := (h1.pm x hx).1
-      exact ⟨by simp only; omega, by simp only; omega⟩
-    · intro x hx
-      have := (h1.an x hx).1
-      exact ⟨by simp only; omega, by simp only; omega⟩
+  rw [setGlobal_eq]
+  exact install_inv o globalWin _ _ hi (counter_laws.g_rej _) (counter_laws.g_acc _)
 
 theorem phaseMeanQ_inv (o : Obj) (hi : o.Inv) : o.phaseMeanQ.2.Inv := by
   simp only [Obj.phaseMeanQ]
@@ -536,15 +668,9 @@ theorem step_fields (o : Obj) (op : Op) :
   cases op with
   | setWindow w => exact setWindow_fields o w
   | setGlobal =>
-    have := setWindow_fields o globalWin
-    simp only [Obj.step, Obj.setGlobal]
-    split
-    · rename_i o' heq
-      have e : (o.setWindow globalWin).2 = o' := by rw [heq]
-      rw [← e]; exact this
-    · rename_i o' heq
-      have e : (o.setWindow globalWin).2 = o' := by rw [heq]
-      rw [e] at this; exact this
+    simp only [Obj.step, setGlobal_eq]
+    have := install_fields o globalWin (globalRej o.ver) (globalAcc o.ver)
+    exact ⟨this.1, this.2.1, this.2.2.1⟩
   | qPhaseMean => simp only [Obj.step, Obj.phaseMeanQ]; split <;> simp
   | qAnomaly => simp only [Obj.step, Obj.anomalyQ]; split <;> simp
   | evict keep => simp [Obj.step, Obj.evict]
@@ -603,7 +729,7 @@ theorem global_restores (o : Obj) (ops : List Op) (hi : o.Inv) :
   have hf := (run_fields o ops).1
   generalize o.run ops = o' at h hf
   have hg := global_window_is_full o'.full h.fullWF h.fullT h.fullN
-  simp only [Obj.setGlobal, Obj.setWindow, hg]
+  simp only [setGlobal_eq, Obj.install, hg]
   exact ⟨trivial, hf⟩
 
 /-- **matching shapes of observable, grid and every derived series**, after every
@@ -652,10 +778,10 @@ theorem phaseMean_loop_closed (c n : Nat) (obs : Mat) :
 `phase_indices[i, :] = np.arange(i, range_years * c, c)` has exactly `range_years`
 entries (no broadcasting `ValueError`), and the loop computes the closed form;
 `time_cycle = 0` raises `ZeroDivisionError` -/
-theorem phaseIndices_loop_closed (c T : Nat) :
+theorem phaseIndices_loop_closed (c T : Nat) (hT : T < 2 ^ 53) :
     (0 < c → ∃ pi, phaseIndices c T = some pi ∧ phaseIndicesLoop c T = .ok pi)
     ∧ (c = 0 → phaseIndicesLoop c T = .zeroDivision) := by
-  refine ⟨fun hc => ⟨_, ?_, phaseIndicesLoop_eq c T hc⟩, fun h => by simp [phaseIndicesLoop, h]⟩
+  refine ⟨fun hc => ⟨_, ?_, phaseIndicesLoop_eq c T hc hT⟩, fun h => by simp [phaseIndicesLoop, h]⟩
   simp [phaseIndices, Nat.ne_of_gt hc]
 
 /-- every `np.arange(i, range_years * c, c)` of the loop has `range_years` entries -/
@@ -681,7 +807,7 @@ theorem mem_wrap_iff (c : Nat) (hc : 0 < c) (sel : List Int) (r : Nat) :
 sorted, has one entry per selected phase and complete year, and contains exactly the
 time indices of the complete years whose phase `t % c` is one of the selected phases
 (mod `c`); all of them address existing samples. -/
-theorem selected_phases_spec (c T : Nat) (hc : 0 < c) (sel : List Int)
+theorem selected_phases_spec (c T : Nat) (hc : 0 < c) (hT : T < 2 ^ 53) (sel : List Int)
     (hs : ∀ p ∈ sel, -(c : Int) ≤ p ∧ p < (c : Int)) :
     ∃ idx, indicesSelectedPhasesI c T sel = .ok idx
       ∧ idx.Pairwise (· ≤ ·)
@@ -693,14 +819,14 @@ theorem selected_phases_spec (c T : Nat) (hc : 0 < c) (sel : List Int)
     obtain ⟨p, _, rfl⟩ := List.mem_map.mp hq
     exact toNat_emod_lt c hc p
   obtain ⟨idx, hidx, hsorted, _, hlt⟩ := selected_indices_spec c T hc _ hw
-  refine ⟨idx, (selectedI_valid c T hc sel hs).trans hidx, hsorted, ?_, ?_, hlt⟩
+  refine ⟨idx, (selectedI_valid c T hc hT sel hs).trans hidx, hsorted, ?_, ?_, hlt⟩
   · have := selected_length c T hc _ hw idx hidx
     simpa using this
   · intro t
     rw [mem_selected_iff c T hc _ hw idx hidx t, mem_wrap_iff c hc]
 
 /-- the error branch: `IndexError` iff some phase number lies outside `[-c, c)` -/
-theorem selected_phases_error_iff (c T : Nat) (hc : 0 < c) (sel : List Int) :
+theorem selected_phases_error_iff (c T : Nat) (hc : 0 < c) (hT : T < 2 ^ 53) (sel : List Int) :
     indicesSelectedPhasesI c T sel = .indexError
       ↔ ∃ p ∈ sel, p < -(c : Int) ∨ (c : Int) ≤ p := by
   constructor
@@ -712,10 +838,10 @@ theorem selected_phases_error_iff (c T : Nat) (hc : 0 < c) (sel : List Int) :
       constructor
       · apply Classical.byContradiction; intro h1; exact hn ⟨p, hp, Or.inl (by omega)⟩
       · apply Classical.byContradiction; intro h1; exact hn ⟨p, hp, Or.inr (by omega)⟩
-    obtain ⟨idx, hidx, _⟩ := selected_phases_spec c T hc sel hs
+    obtain ⟨idx, hidx, _⟩ := selected_phases_spec c T hc hT sel hs
     rw [hidx] at h
     exact absurd h (by simp)
-  · exact selectedI_invalid c T hc sel
+  · exact selectedI_invalid c T hc hT sel
 
 theorem monthDays_length (months : List Int) : (monthDays months).length = months.length * 30 := by
   rw [monthDays_eq]
@@ -725,14 +851,14 @@ theorem monthDays_length (months : List Int) : (monthDays months).length = month
 
 /-- **`indices_selected_months`, monthly data (`time_cycle = 12`)**: for month numbers in
 `[-12, 12)` the sorted indices of the complete years whose month `t % 12` is selected -/
-theorem selected_months_12 (T : Nat) (months : List Int)
+theorem selected_months_12 (T : Nat) (hT : T < 2 ^ 53) (months : List Int)
     (hm : ∀ m ∈ months, (-12 : Int) ≤ m ∧ m < 12) :
     ∃ idx, indicesSelectedMonthsI 12 T months = .ok idx
       ∧ idx.Pairwise (· ≤ ·)
       ∧ idx.length = months.length * (T / 12)
       ∧ (∀ t, t ∈ idx ↔ t < (T / 12) * 12 ∧ ((t % 12 : Nat) : Int) ∈ months.map (· % 12))
       ∧ ∀ t ∈ idx, t < T := by
-  have := selected_phases_spec 12 T (by omega) months (by simpa using hm)
+  have := selected_phases_spec 12 T (by omega) hT months (by simpa using hm)
   simpa [indicesSelectedMonthsI] using this
 
 /-- **`indices_selected_months`, standardised daily data (`time_cycle = 360`)**: the
@@ -740,7 +866,7 @@ month → day expansion `month * 30 + day`, `day ∈ range(30)`, selects exactly
 indices of the complete years whose month `(t % 360) / 30` is selected (month numbers
 in `[-12, 12)`, negative ones counting from December); sorted, 30 days per month and
 year, all addressing existing samples -/
-theorem selected_months_360 (T : Nat) (months : List Int)
+theorem selected_months_360 (T : Nat) (hT : T < 2 ^ 53) (months : List Int)
     (hm : ∀ m ∈ months, (-12 : Int) ≤ m ∧ m < 12) :
     ∃ idx, indicesSelectedMonthsI 360 T months = .ok idx
       ∧ idx.Pairwise (· ≤ ·)
@@ -753,7 +879,7 @@ theorem selected_months_360 (T : Nat) (months : List Int)
     obtain ⟨m, hmm, d, hd, rfl⟩ := (mem_monthDays months p).mp hp
     have := hm m hmm
     omega
-  obtain ⟨idx, hidx, hs, hl, hmem, hlt⟩ := selected_phases_spec 360 T (by omega) _ hd
+  obtain ⟨idx, hidx, hs, hl, hmem, hlt⟩ := selected_phases_spec 360 T (by omega) hT _ hd
   refine ⟨idx, by simpa [indicesSelectedMonthsI] using hidx, hs,
     by rw [hl, monthDays_length], ?_, hlt⟩
   intro t
@@ -773,18 +899,18 @@ theorem selected_months_360 (T : Nat) (months : List Int)
 
 /-- an out-of-range month is an `IndexError` (both supported cycle lengths); any other
 cycle length is `NotImplementedError` -/
-theorem selected_months_errors (c T : Nat) (months : List Int) :
+theorem selected_months_errors (c T : Nat) (hT : T < 2 ^ 53) (months : List Int) :
     (c ≠ 12 → c ≠ 360 → indicesSelectedMonthsI c T months = .notImplemented)
     ∧ ((c = 12 ∨ c = 360) → (∃ m ∈ months, m < -12 ∨ 12 ≤ m) →
         indicesSelectedMonthsI c T months = .indexError) := by
   refine ⟨fun h1 h2 => by simp [indicesSelectedMonthsI, h1, h2], ?_⟩
   rintro (rfl | rfl) ⟨m, hmm, hbad⟩
   · simp only [indicesSelectedMonthsI, if_true]
-    exact (selected_phases_error_iff 12 T (by omega) months).mpr ⟨m, hmm, by omega⟩
+    exact (selected_phases_error_iff 12 T (by omega) hT months).mpr ⟨m, hmm, by omega⟩
   · have : indicesSelectedMonthsI 360 T months = indicesSelectedPhasesI 360 T (monthDays months) := by
       simp [indicesSelectedMonthsI]
     rw [this]
-    refine (selected_phases_error_iff 360 T (by omega) _).mpr
+    refine (selected_phases_error_iff 360 T (by omega) hT _).mpr
       ⟨m * 30 + ((0 : Nat) : Int), (mem_monthDays months _).mpr ⟨m, hmm, 0, by omega, rfl⟩, by omega⟩
 
 theorem range_map_getD {α : Type} (l : List α) (d : α) :
@@ -838,10 +964,9 @@ theorem view_is_last_accepted_window (o : Obj) (ops : List Op) (hi : o.Inv) :
 /-- `win` is the window of the last accepted `set_window` -/
 theorem accepted_window_recorded (o : Obj) (w : Win) (h : (o.setWindow w).1 = false) :
     (o.setWindow w).2.win = w ∧ applyWindow o.full w = some (o.setWindow w).2.cur := by
-  unfold Obj.setWindow at h ⊢
-  split
-  · rename_i hv; simp [hv] at h
-  · rename_i v hv; exact ⟨rfl, hv⟩
+  rw [setWindow_eq] at h ⊢
+  have := install_accepted o w _ _ h
+  exact ⟨this.1, this.2.1⟩
 
 /-- queries and evictions never change the view or the recorded window -/
 theorem queries_keep_view (o : Obj) :
@@ -977,7 +1102,7 @@ theorem setWindowCurrent_keeps_view (o : Obj) (ops : List Op) (hi : o.Inv)
   have h := run_inv o ops hi
   generalize o.run ops = o' at h hb
   have := (reapply_own_window o'.full o'.win o'.cur h.fullWF h.isWin _ _ _ _ _ _ hb).2.2 h1 h2 h3
-  simp only [Obj.setWindowCurrent, hb, Obj.setWindow, this]
+  simp only [Obj.setWindowCurrent, hb, setWindow_eq, Obj.install, this]
   exact ⟨trivial, trivial⟩
 
 /-! ## 14. Objects built on arrays the library holds -/
@@ -992,9 +1117,13 @@ theorem nest_inv (o : Obj) (ops : List Op) (hi : o.Inv) :
   generalize o.run ops = o1 at h
   obtain ⟨_, _, _, _, hT, hN⟩ := applyWindow_some _ _ _ h.isWin
   have hg := global_window_is_full o1.cur h.curWF hT hN
-  have hinit : Obj.init o1.cur o1.cycle o1.anom none
-      = some ⟨o1.cur, o1.cur, o1.cycle, o1.anom, 1, [], [], globalWin⟩ := by
-    simp [Obj.init, hg]
+  have hinit : ∃ v, Obj.init o1.cur o1.cycle o1.anom none
+      = some ⟨o1.cur, o1.cur, o1.cycle, o1.anom, v, [], [], globalWin⟩ := by
+    obtain ⟨vr, va, he⟩ := init_eq_install o1.cur o1.cycle o1.anom none
+    refine ⟨va, ?_⟩
+    rw [he]
+    simp [Obj.install, blank, hg]
+  obtain ⟨v, hinit⟩ := hinit
   refine ⟨_, hinit, (init_inv _ _ _ _ _ h.curWF hinit).1, rfl, rfl⟩
 
 /-- a window of a window exposes exactly the samples lying in both windows -/
@@ -1016,7 +1145,8 @@ theorem nested_window_is_intersection (full : View) (w1 w2 : Win) (v1 v2 : View)
 the (memoised) `anomaly()` of the *current* window — no `IndexError` — and the result
 consists of exactly those rows, each with one entry per node of the current grid. -/
 theorem anomaly_selected_months_spec (o : Obj) (ops : List Op) (hi : o.Inv) (months : List Int)
-    (hc : o.cycle = 12 ∨ o.cycle = 360) (hm : ∀ m ∈ months, (-12 : Int) ≤ m ∧ m < 12) :
+    (hc : o.cycle = 12 ∨ o.cycle = 360) (hm : ∀ m ∈ months, (-12 : Int) ≤ m ∧ m < 12)
+    (hT : o.full.time.length < 2 ^ 53) :
     let o' := o.run ops
     ∃ idx, indicesSelectedMonthsI o'.cycle o'.cur.time.length months = .ok idx
       ∧ (∀ t ∈ idx, t < o'.cur.time.length)
@@ -1029,15 +1159,21 @@ theorem anomaly_selected_months_spec (o : Obj) (ops : List Op) (hi : o.Inv) (mon
   simp only at hsh
   obtain ⟨_, _, _, hlen, hcols, _, _⟩ := hsh
   rw [hq] at hlen hcols
+  have hT' : o'.cur.time.length < 2 ^ 53 := by
+    have hv := view_is_last_accepted_window o ops hi
+    have := (window_selects_exactly o.full _ _ hi.fullWF hv).1
+    show (o.run ops).cur.time.length < 2 ^ 53
+    rw [this]
+    exact Nat.lt_of_le_of_lt (List.length_filter_le _ _) hT
   have hidx : ∃ idx, indicesSelectedMonthsI o'.cycle o'.cur.time.length months = .ok idx
       ∧ ∀ t ∈ idx, t < o'.cur.time.length := by
     rw [hcyc]
     rcases hc with h | h
     · rw [h]
-      obtain ⟨idx, h1, _, _, _, h5⟩ := selected_months_12 o'.cur.time.length months hm
+      obtain ⟨idx, h1, _, _, _, h5⟩ := selected_months_12 o'.cur.time.length hT' months hm
       exact ⟨idx, h1, h5⟩
     · rw [h]
-      obtain ⟨idx, h1, _, _, _, h5⟩ := selected_months_360 o'.cur.time.length months hm
+      obtain ⟨idx, h1, _, _, _, h5⟩ := selected_months_360 o'.cur.time.length hT' months hm
       exact ⟨idx, h1, h5⟩
   obtain ⟨idx, h1, h2⟩ := hidx
   have h2' : ∀ t ∈ idx, t < (o.run ops).cur.time.length := h2
@@ -1130,14 +1266,223 @@ theorem gen_months (c T : Nat) (months : List Int) :
   rw [monthDays_eq]
   rfl
 
-/-- the cache counter: an accepted `ClimateData.set_window` performs `_mut_window += 1`
-(the second increment of `set_global_window` is redundant and deliberately not tied) -/
-theorem gen_bump (o : Obj) (w : Win) (h : (o.setWindow w).1 = false) :
-    ((o.setWindow w).2.ver : Int) = ArithC13.bumpWindow o.ver := by
-  unfold Obj.setWindow at h ⊢
-  split
-  · rename_i hv; simp [hv] at h
-  · simp [ArithC13.bumpWindow]
+/-- `int(T / time_cycle)` as CPython evaluates it (one rounding to double, then truncation) is
+the exact floor the translator reads from the source expression — for every record shorter
+than `2⁵³` samples -/
+theorem rangeYears_float (T c : Nat) (hc : 0 < c) (hT : T < 2 ^ 53) :
+    (rangeYearsF T c : Int) = ArithC13.rangeYears (T : Int) (c : Int) := by
+  rw [rangeYearsF_eq T c hc hT, (gen_phaseIndices T c 0 hc).1]
+
+/-- the bound is needed: beyond `2⁵³` the floating-point quotient is no longer the integer
+quotient (`int((2⁵³ + 1) / 1) = 2⁵³`) -/
+theorem rangeYears_float_needs_bound : rangeYearsF (2 ^ 53 + 1) 1 ≠ (2 ^ 53 + 1) / 1 := by
+  decide +kernel
+
+/-! ## 15b. The cache counter over histories
+
+The counter statements are those of the source (`StructC13`, regenerated every run); all that
+is used about them is `counter_laws`. -/
+
+theorem install_ver (o : Obj) (w : Win) (vr va : Nat) (h1 : o.ver ≤ vr) (h2 : o.ver < va) :
+    o.ver ≤ (o.install w vr va).2.ver
+    ∧ ((o.install w vr va).1 = false → o.ver < (o.install w vr va).2.ver)
+    ∧ ((o.install w vr va).2.ver = o.ver →
+        (o.install w vr va).2.cur = o.cur ∧ (o.install w vr va).2.win = o.win) := by
+  unfold Obj.install
+  cases applyWindow o.full w with
+  | none => exact ⟨h1, fun h => by simp at h, fun _ => ⟨rfl, rfl⟩⟩
+  | some v => exact ⟨Nat.le_of_lt h2, fun _ => h2, fun h => by simp only at h; omega⟩
+
+/-- **an accepted window change strictly increases the cache counter** (both setters) -/
+theorem accepted_window_bumps_counter (o : Obj) :
+    (∀ w, (o.setWindow w).1 = false → o.ver < (o.setWindow w).2.ver)
+    ∧ (o.setGlobal.1 = false → o.ver < o.setGlobal.2.ver) := by
+  refine ⟨fun w => ?_, ?_⟩
+  · rw [setWindow_eq]
+    exact (install_ver o w _ _ (counter_laws.w_rej _) (counter_laws.w_acc _)).2.1
+  · rw [setGlobal_eq]
+    exact (install_ver o globalWin _ _ (counter_laws.g_rej _) (counter_laws.g_acc _)).2.1
+
+/-- one operation: the counter never decreases, and if it keeps its value the exposed view
+(and the recorded window) are unchanged -/
+theorem step_counter (o : Obj) (op : Op) :
+    o.ver ≤ (o.step op).ver
+    ∧ ((o.step op).ver = o.ver → (o.step op).cur = o.cur ∧ (o.step op).win = o.win) := by
+  have hw : ∀ w, o.ver ≤ (o.setWindow w).2.ver
+      ∧ ((o.setWindow w).2.ver = o.ver →
+          (o.setWindow w).2.cur = o.cur ∧ (o.setWindow w).2.win = o.win) := by
+    intro w
+    rw [setWindow_eq]
+    have := install_ver o w _ _ (counter_laws.w_rej o.ver) (counter_laws.w_acc o.ver)
+    exact ⟨this.1, this.2.2⟩
+  have ha : o.anomalyQ.2.ver = o.ver ∧ o.anomalyQ.2.cur = o.cur ∧ o.anomalyQ.2.win = o.win := by
+    simp only [Obj.anomalyQ]; split <;> simp
+  cases op with
+  | setWindow w => exact hw w
+  | setGlobal =>
+    simp only [Obj.step, setGlobal_eq]
+    have := install_ver o globalWin _ _ (counter_laws.g_rej o.ver) (counter_laws.g_acc o.ver)
+    exact ⟨this.1, this.2.2⟩
+  | qPhaseMean =>
+    have : o.phaseMeanQ.2.ver = o.ver ∧ o.phaseMeanQ.2.cur = o.cur ∧ o.phaseMeanQ.2.win = o.win := by
+      simp only [Obj.phaseMeanQ]; split <;> simp
+    simp only [Obj.step]
+    exact ⟨Nat.le_of_eq this.1.symm, fun _ => this.2⟩
+  | qAnomaly =>
+    simp only [Obj.step]
+    exact ⟨Nat.le_of_eq ha.1.symm, fun _ => ha.2⟩
+  | evict keep => exact ⟨Nat.le_refl _, fun _ => ⟨rfl, rfl⟩⟩
+  | setWindowCurrent =>
+    simp only [Obj.step]
+    rcases setWindowCurrent_cases o with h | ⟨w, h⟩
+    · rw [h]; exact ⟨Nat.le_refl _, fun _ => ⟨rfl, rfl⟩⟩
+    · rw [h]; exact hw w
+  | qSelectedMonths months =>
+    simp only [Obj.step]
+    rcases anomalySelectedMonths_state o months with h | h
+    · rw [h]; exact ⟨Nat.le_refl _, fun _ => ⟨rfl, rfl⟩⟩
+    · rw [h]; exact ⟨Nat.le_of_eq ha.1.symm, fun _ => ha.2⟩
+
+/-- **the counter never decreases over a history** -/
+theorem run_counter_mono (o : Obj) (ops : List Op) : o.ver ≤ (o.run ops).ver := by
+  induction ops generalizing o with
+  | nil => exact Nat.le_refl _
+  | cons op ops ih => exact Nat.le_trans (step_counter o op).1 (ih (o.step op))
+
+/-- **a value of the counter identifies one view**: if the counter after a history is what
+it was before, the exposed view is the same — so a memoised result stored under that value
+can never belong to another window (what resetting the counter would destroy) -/
+theorem counter_identifies_view (o : Obj) (ops : List Op) (h : (o.run ops).ver = o.ver) :
+    (o.run ops).cur = o.cur ∧ (o.run ops).win = o.win := by
+  induction ops generalizing o with
+  | nil => exact ⟨rfl, rfl⟩
+  | cons op ops ih =>
+    have h1 := (step_counter o op).1
+    have h2 := run_counter_mono (o.step op) ops
+    have h' : ((o.step op).run ops).ver = o.ver := h
+    have e1 : (o.step op).ver = o.ver := by omega
+    have e2 : ((o.step op).run ops).ver = (o.step op).ver := by omega
+    have a := ih (o.step op) e2
+    have b := (step_counter o op).2 e1
+    exact ⟨a.1.trans b.1, a.2.trans b.2⟩
+
+/-- the same between any two points of one history -/
+theorem counter_identifies_view_between (o : Obj) (ops1 ops2 : List Op)
+    (h : (o.run (ops1 ++ ops2)).ver = (o.run ops1).ver) :
+    (o.run (ops1 ++ ops2)).cur = (o.run ops1).cur := by
+  have e : o.run (ops1 ++ ops2) = (o.run ops1).run ops2 := by simp [Obj.run, List.foldl_append]
+  rw [e] at h ⊢
+  exact (counter_identifies_view _ ops2 h).1
+
+/-! ## 15c. Coinciding bounds are tested exactly, not approximately -/
+
+/-- two *distinct* time bounds, however close (relative to their magnitude or absolutely),
+are a window: exactly the stamps of the closed interval are selected -/
+theorem distinct_bounds_are_a_window (w : Win) (time : Vec) (h : w.tmin ≠ w.tmax) :
+    timeMask w time = time.map fun t => decide (w.tmin ≤ t ∧ t ≤ w.tmax) := by
+  rw [timeMask_eq]
+  apply List.map_congr_left
+  intro t _
+  simp [timeIn, h, inRange]
+
+/-- `np.isclose(a, b)` with its default tolerances: `|a - b| ≤ 1e-8 + 1e-5 · |b|` -/
+def isclose (a b : Rat) : Bool :=
+  decide ((if a ≤ b then b - a else a - b) ≤ 1 / 100000000 + 1 / 100000 * (if 0 ≤ b then b else -b))
+
+/-- `time_indices` with an approximate test for coinciding bounds -/
+def timeMaskTol (w : Win) (time : Vec) : List Bool :=
+  if isclose w.tmin w.tmax then List.replicate time.length true
+  else time.map (inRange w.tmin w.tmax)
+
+/-- counter-model: with an approximate test, hourly stamps around `2²⁰` and the window
+`[2²⁰ + 1, 2²⁰ + 2]` expose all five samples instead of two — the exact test does not -/
+theorem tolerance_breaks_selection :
+    let time : Vec := [1048576, 1048577, 1048578, 1048579, 1048580]
+    let w : Win := ⟨1048577, 1048578, 0, 0, 0, 0⟩
+    timeMaskTol w time = [true, true, true, true, true]
+    ∧ timeMask w time = [false, true, true, false, false] := by
+  decide +kernel
+
+/-! ## 15d. Files with a regular grid (`Data.Load`, `GeoGrid.RegularGrid`) -/
+
+theorem rectNodes_length (lat lon : Vec) : (rectNodes lat lon).length = lat.length * lon.length := by
+  induction lat with
+  | nil => simp [rectNodes]
+  | cons a l ih =>
+    simp only [rectNodes, List.flatMap_cons, List.length_append, List.length_map] at ih ⊢
+    rw [ih, List.length_cons, Nat.succ_mul]; omega
+
+theorem zip_map_fst_snd {α β : Type} (l : List (α × β)) :
+    (l.map Prod.fst).zip (l.map Prod.snd) = l := by
+  induction l with
+  | nil => rfl
+  | cons p t ih => simp [ih]
+
+/-- the nodes of a loaded regular file are the pairs (latitude, longitude) of the two axes -/
+theorem loadRegular_nodes (time latg long : Vec) (rows : Mat) :
+    (loadRegular time latg long rows).lat.zip (loadRegular time latg long rows).lon
+      = rectNodes latg long := zip_map_fst_snd _
+
+/-- a `(time, lat, lon)` variable reshaped to `(n_time, -1)` matches the grid built from the axes -/
+theorem loadRegular_wf (time latg long : Vec) (rows : Mat) (h1 : rows.length = time.length)
+    (h2 : ∀ r ∈ rows, r.length = latg.length * long.length) :
+    (loadRegular time latg long rows).WF :=
+  ⟨h1, fun r hr => by simp [loadRegular, rectNodes_length, h2 r hr], by simp [loadRegular]⟩
+
+/-- **a rectangular window on a regular grid selects a regular sub-grid**: the nodes inside the
+(non-degenerate) spatial window are exactly the pairs of the latitudes inside the latitude
+bounds with the longitudes inside the longitude bounds, in grid order -/
+theorem regular_window_is_subgrid (w : Win) (latg long : Vec)
+    (h1 : w.latmin ≠ w.latmax) (h2 : w.lonmin ≠ w.lonmax) :
+    (rectNodes latg long).filter (nodeIn w)
+      = rectNodes (latg.filter (inRange w.latmin w.latmax))
+          (long.filter (inRange w.lonmin w.lonmax)) := by
+  have hn : ∀ p, nodeIn w p = (inRange w.latmin w.latmax p.1 && inRange w.lonmin w.lonmax p.2) := by
+    intro p; simp [nodeIn, h1, h2, inBox]
+  induction latg with
+  | nil => simp [rectNodes]
+  | cons a l ih =>
+    simp only [rectNodes, List.flatMap_cons, List.filter_append] at ih ⊢
+    rw [ih]
+    by_cases ha : inRange w.latmin w.latmax a = true
+    · simp only [List.filter_cons, ha, if_true, List.flatMap_cons]
+      congr 1
+      rw [List.filter_map]
+      congr 1
+      apply List.filter_congr
+      intro x _
+      simp [hn, ha]
+    · simp only [List.filter_cons, ha]
+      have : List.filter (nodeIn w) (List.map (fun lo => (a, lo)) long) = [] := by
+        rw [List.filter_eq_nil_iff]
+        intro p hp
+        obtain ⟨lo, _, rfl⟩ := List.mem_map.mp hp
+        simp [hn, ha]
+      rw [this]; simp
+
+/-- object level: a window on a loaded regular file exposes the regular sub-grid, with
+`#lat · #lon` nodes — all theorems about windows, derived series and histories apply to
+loaded data through `loadRegular_wf` -/
+theorem load_window_is_subgrid (time latg long : Vec) (rows : Mat) (w : Win) (v : View)
+    (hwf : (loadRegular time latg long rows).WF)
+    (h : applyWindow (loadRegular time latg long rows) w = some v)
+    (h1 : w.latmin ≠ w.latmax) (h2 : w.lonmin ≠ w.lonmax) :
+    v.lat.zip v.lon = rectNodes (latg.filter (inRange w.latmin w.latmax))
+        (long.filter (inRange w.lonmin w.lonmax))
+    ∧ v.lat.length = (latg.filter (inRange w.latmin w.latmax)).length
+        * (long.filter (inRange w.lonmin w.lonmax)).length := by
+  have hz := (window_selects_exactly _ w v hwf h).2.1
+  rw [loadRegular_nodes, regular_window_is_subgrid w latg long h1 h2] at hz
+  refine ⟨hz, ?_⟩
+  have hv := window_shapes_agree _ w v hwf h
+  have := congrArg List.length hz
+  rw [List.length_zip, rectNodes_length, ← hv.latlon, Nat.min_self] at this
+  exact this
+
+/-- 2 latitudes × 3 longitudes: the window keeps one latitude and two longitudes -/
+example : applyWindow (loadRegular [0, 1] [0, 5] [1, 2, 3] [[1, 2, 3, 4, 5, 6], [7, 8, 9, 10, 11, 12]])
+      ⟨0, 0, 4, 6, 2, 3⟩
+    = some ⟨[0, 1], [5, 5], [2, 3], [[5, 6], [11, 12]]⟩ := by decide +kernel
 
 /-! ## 16. Rescaling: anomalies and phase means are homogeneous, windows follow the time unit -/
 
@@ -1186,8 +1531,7 @@ theorem timeMask_rescale (k : Rat) (hk : 0 < k) (w : Win) (time : Vec) :
   have hinj : k * w.tmin = k * w.tmax ↔ w.tmin = w.tmax := by
     constructor
     · intro h
-      exact Rat.le_antisymm ((hle _ _).mp (by rw [h]; exact Rat.le_refl))
-        ((hle _ _).mp (by rw [h]; exact Rat.le_refl))
+      exact Rat.le_antisymm ((hle _ _).mp (h ▸ Rat.le_refl)) ((hle _ _).mp (h ▸ Rat.le_refl))
     · intro h; rw [h]
   unfold timeMask
   by_cases h : w.tmin = w.tmax
